@@ -176,6 +176,29 @@ def floor(tier):
         pts += [[0.5, 0.5, 0.5], [1.0, 0.5, 0.5], [0.5, 1.0, 0.5], [1.0, 0.25, 0.5]]
         out.append({"kind": "polyhedron", "faces": faces, "style": "floor-" + name,
                     "cells": [list(c) for c in cells], "A": A, "b": b, "pts": pts})
+    # 2x2x2 block minus one corner cube, scaled by 2 (cube [0,4]^3 minus [2,4]^3): interior
+    # points on the prolongation of the re-entrant edges and of face diagonals (collinear
+    # with a surface edge without being on it), and on the planes of distant faces
+    cells = [(i, j, k) for i in range(2) for j in range(2) for k in range(2)
+             if (i, j, k) != (1, 1, 1)]
+    A = [[2, 0, 0], [0, 2, 0], [0, 0, 2]]
+    b = [0, 0, 0]
+    out.append({"kind": "polyhedron", "faces": sh.polyhedron_from_cells(cells, A, b),
+                "style": "floor-block-minus-corner", "cells": [list(c) for c in cells],
+                "A": A, "b": b,
+                "pts": [[1, 2, 2], [2, 1, 2], [2, 2, 1], [0.5, 2, 2], [2, 1.5, 2],
+                        [2, 1, 1], [1, 2, 1], [1, 1, 2], [2, 1.5, 1.5], [1.5, 2, 1.5],
+                        [1, 1, 1], [3, 3, 3], [3, 1, 1], [2.5, 3.5, 3], [1.5, 0.5, 3],
+                        [3.5, 3.5, 0.5], [3, 2.5, 2.5]]})
+    A = [[1, 1, 0], [0, 2, 1], [0, 0, 2]]
+    out.append({"kind": "polyhedron", "faces": sh.polyhedron_from_cells(cells, A, [1, -2, 0]),
+                "style": "floor-block-minus-corner-affine",
+                "cells": [list(c) for c in cells], "A": A,
+                "b": [1, -2, 0],
+                "pts": [[float(v) for v in (np.array(A) @ np.array(q) + np.array([1, -2, 0]))]
+                        for q in [[0.5, 1, 1], [1, 0.5, 1], [1, 1, 0.5], [0.25, 1, 1],
+                                  [1, 0.75, 0.75], [0.5, 0.5, 1], [1.5, 1.5, 1.5],
+                                  [1.5, 0.5, 0.5], [0.5, 0.5, 0.5]]]})
     octa = [[list(p) for p in f] for f in
             [[(2, 0, 0), (0, 2, 0), (0, 0, -1)], [(0, 2, 0), (2, 0, 0), (0, 0, -3)],
              [(0, 2, 0), (-2, 0, 0), (0, 0, -1)], [(-2, 0, 0), (0, 2, 0), (0, 0, -3)],
